@@ -1577,6 +1577,21 @@ class Interp:
         while i < len(stmts) and out.live is not None:
             s = stmts[i]
             i += 1
+            if isinstance(s, ast.For) and s.orelse and self._is_search_loop(s):
+                # for/else search: the else part is ``if <nothing found>: ...`` after the search
+                lowered = getattr(s, "_search_lowered", None)
+                if lowered is None:
+                    plain = ast.For(target=s.target, iter=s.iter, body=s.body, orelse=[], type_comment=None)
+                    test = ast.Compare(left=ast.Name(id=s.target.id, ctx=ast.Load()), ops=[ast.Is()], comparators=[ast.Constant(value=None)])
+                    syn = ast.If(test=test, body=list(s.orelse), orelse=[])
+                    for x in (plain, syn):
+                        ast.copy_location(x, s)
+                        ast.fix_missing_locations(x)
+                    lowered = s._search_lowered = [plain, syn]
+                o = self.exec_block(lowered + list(stmts[i:]), out.live, tree)
+                self._acc(out, o)
+                out.live = o.live
+                return out
             if isinstance(s, ast.Match):
                 lowered = self._lower_match(s)
                 if lowered is not None:
@@ -2086,10 +2101,23 @@ class Interp:
         ret = out.ret
         retc = ("loopret", lid) if ret is not None else None
         if s.orelse:
-            o2 = self.exec_block(s.orelse, after, tree)
-            r = Outcome(live=o2.live, ret=ret, retc=retc)
-            self._acc(r, o2)
-            r.live = o2.live
+            if out.brk is None:
+                o2 = self.exec_block(s.orelse, after, tree)
+                r = Outcome(live=o2.live, ret=ret, retc=retc)
+                self._acc(r, o2)
+                r.live = o2.live
+                return r
+            # the else part runs only when the loop was not left by break
+            brk_c = ("loopbrk", lid)
+            sub2: list = []
+            fe = after.fork()
+            o2 = self.exec_block(s.orelse, fe, sub2)
+            tree.append(("if", brk_c, [], sub2, s.lineno))
+            r = Outcome(live=None, ret=ret, retc=retc)
+            if o2.ret is not None:
+                r.ret, r.retc = join_exit(r.ret, r.retc, o2.ret, mk_cond(brk_c, FALSE, o2.retc) if o2.retc is not None else None)
+            r.brk, r.brkc, r.cont, r.contc = o2.brk, o2.brkc, o2.cont, o2.contc
+            r.live = merge_states(brk_c, after, o2.live) if o2.live is not None else after
             return r
         return Outcome(live=after, ret=ret, retc=retc)
 
@@ -2179,7 +2207,30 @@ class Interp:
                     st.env[nm] = final.env[key(nm)]
         return Outcome(live=st)
 
+    def _search_loop(self, s, st, tree):
+        """``for x in xs: if TEST(x): break`` [``else: ...``]: a first-match search - the same thing as
+        ``x = next((x for x in xs if TEST(x)), None)`` followed by ``if x is None: <else part>``."""
+        it = self.ev(st, s.iter, tree)
+        lid = next(self._loop)
+        f = st.fork()
+        self.bind_target(f, s.target, ("elem", lid), lid, it)
+        sub: list = []
+        c = self.ev(f, s.body[0].test, sub)
+        self.loops[lid] = {"id": lid, "kind": "comp", "iter": it, "conds": (c,), "line": s.lineno, "carried": {}}
+        tree.append(("loop", lid, sub))
+        found = ("firstof", lid, ("elem", lid), NONE)
+        st.env[s.target.id] = found
+        return Outcome(live=st)
+
+    @staticmethod
+    def _is_search_loop(s) -> bool:
+        return len(s.body) == 1 and isinstance(s.body[0], ast.If) and not s.body[0].orelse and len(s.body[0].body) == 1 \
+            and isinstance(s.body[0].body[0], ast.Break) and isinstance(s.target, ast.Name) \
+            and not any(isinstance(x, (ast.NamedExpr, ast.Yield, ast.YieldFrom, ast.Await)) for x in ast.walk(s.body[0].test))
+
     def st_For(self, s, st, tree):
+        if not s.orelse and self._is_search_loop(s):
+            return self._search_loop(s, st, tree)
         # a loop over a lazy generator of the repository is fused with the generator's body
         if isinstance(s.iter, (ast.Call, ast.Name)) and not s.orelse:
             exits = any(isinstance(x, (ast.Break, ast.Return)) for b in s.body for x in ast.walk(b))
